@@ -30,7 +30,7 @@ def new_fn(name, kind, refs=(), hidden=(), explicit=None, cluster="vz"):
 
 
 def random_prog(r, nmem=3, nplain=2, nvar=2, hidden_p=0.15, forms=("bare", "bare", "attr", "alias"), acyclic=True,
-                init_p=0.0, twins_p=0.0, late_p=0.0):
+                init_p=0.0, twins_p=0.0, late_p=0.0, shapes_p=0.0, factory_p=0.0):
     names = ["m%d" % i for i in range(1, nmem + 1)] + ["h%d" % i for i in range(1, nplain + 1)]
     vars_ = ["v%d" % i for i in range(1, nvar + 1)]
     nodes = []
@@ -69,6 +69,19 @@ def random_prog(r, nmem=3, nplain=2, nvar=2, hidden_p=0.15, forms=("bare", "bare
         for c in ("K1", "K2"):
             nodes.append(dict(new_fn(c + ".sm", "plain"), cls=c))
             user["refs"].append({"to": c + ".sm", "form": "bare"})
+    # two helpers made by one factory (one code object, different defaults), used by different functions
+    if r.random() < factory_p and len(fns) >= 2:
+        users = r.sample([n for n in fns if n.get("where") != "init"], 2)
+        for i, u in enumerate(users, start=1):
+            nodes.append(dict(new_fn("hf%d" % i, "plain"), factory=True))
+            nodes[-1]["slots"]["dflt"] = i
+            u["refs"].append({"to": "hf%d" % i, "form": "bare"})
+    # references placed in syntactic contexts other than a bare call
+    if shapes_p:
+        for n in fns:
+            for q in n["refs"]:
+                if r.random() < shapes_p:
+                    q["shape"] = r.choice(SHAPES)
     # a table created empty and filled in place after the definitions
     if r.random() < late_p:
         v = {"name": "vl", "kind": "var", "val": r.choice([[1, 2], {"a": 1}, [3], {"vat": 20, "x": [1]}]), "late": True}
@@ -90,11 +103,30 @@ def node(prog, name):
     return None
 
 
+SHAPES = ["plain", "plain", "plain", "strarg", "index", "lambda", "comp", "cond", "fstr", "kwarg", "chain"]
+
+
+def shaped(x, shape):
+    """the expression x (a call or a variable) placed in a syntactic context"""
+    return {
+        "strarg": "str(%s).strip()" % x,            # inside the arguments of a call whose result is dereferenced
+        "index": "[%s][0]" % x,
+        "lambda": "(lambda: %s)()" % x,
+        "comp": "[%s for _ in (0,)][0]" % x,
+        "cond": "(%s if a >= 0 else None)" % x,
+        "fstr": "f\"{%s}\"" % x,
+        "kwarg": "dict(v=%s)[\"v\"]" % x,
+        "chain": "repr(%s).upper().lower()" % x,
+    }.get(shape, x)
+
+
 def fn_source(n, twin=False, decorate=True):
     """Source text of one function definition (identical text in-process and in a fresh file)."""
     s = n["slots"]
     name = n["name"]
     lines = []
+    if n.get("factory"):      # made by the shared factory _mk: same code object as its sibling, another default
+        return "%s = _mk(%r, %d)\n" % (name, name, s["dflt"])
     if n["kind"] == "mem" and not twin and decorate:
         args = []
         if n.get("cluster"):
@@ -116,17 +148,18 @@ def fn_source(n, twin=False, decorate=True):
     for r in n["refs"]:
         to = r["to"]
         if to.startswith("v") or to.startswith("u"):
-            lines.append("    acc.append(%s)" % to)
+            x = to
         elif r["form"] == "attr":
-            lines.append("    acc.append(_self.%s(a))" % to)
+            x = "_self.%s(a)" % to
         elif r["form"] == "alias":
-            lines.append("    acc.append(alias_%s(a))" % to)
+            x = "alias_%s(a)" % to
         elif r["form"] == "wrapped":
-            lines.append("    acc.append(wrapped_%s(a))" % to)
+            x = "wrapped_%s(a)" % to
         elif r["form"] == "wrapped2":
-            lines.append("    acc.append(wrapped2_%s(a))" % to)
+            x = "wrapped2_%s(a)" % to
         else:
-            lines.append("    acc.append(%s(a))" % to)
+            x = "%s(a)" % to
+        lines.append("    acc.append(%s)" % shaped(x, r.get("shape", "plain")))
     if n.get("fnarg"):
         lines.append("    if fnarg is not None:")
         lines.append("        acc.append(fnarg(a))")
@@ -151,6 +184,16 @@ def _deco(fn):
         return fn(*a, **kw)
     return inner
 
+
+def _mk(nm, dv):
+    def made(a, d=dv, nm=nm):
+        log('Body', nm)
+        return [nm, d, a]
+    return made
+
+
+_self = sys.modules[__name__]
+
 '''
 TWIN_HEADER = '''"""plain twin: the same program without memoization"""
 import functools
@@ -162,6 +205,15 @@ def _deco(fn):
     def inner(*a, **kw):
         return fn(*a, **kw)
     return inner
+
+
+def _mk(nm, dv):
+    def made(a, d=dv, nm=nm):
+        return [nm, d, a]
+    return made
+
+
+_self = sys.modules[__name__]
 
 '''
 
@@ -184,7 +236,6 @@ def module_source(prog, twin=False, order=None):
             out.append("\nfrom %s import %s\n" % (PKG, n["name"]))
         else:
             out.append("\n" + fn_source(n, twin=twin) + "\n")
-    out.append("_self = sys.modules[__name__]\n")
     for n in prog["nodes"]:
         if n["kind"] == "var" and n.get("late"):
             out.append("%s.%s(%r)\n" % (n["name"], "extend" if isinstance(n["val"], list) else "update", n["val"]))
@@ -219,7 +270,7 @@ def random_edit(r, prog, kinds=None):
     k = r.choice(kinds)
     if k == "slot":
         n = r.choice(fns)
-        s = r.choice(SLOTS)
+        s = r.choice(SLOTS) if not n.get("factory") else "dflt"
         n["slots"][s] += 1
         return {"edit": "slot", "name": n["name"], "slot": s}
     if k == "var" and vars_:
@@ -242,7 +293,7 @@ def random_edit(r, prog, kinds=None):
                 n["val"]["k%d" % len(n["val"])] = 1
             return {"edit": "var_mutate", "name": n["name"]}
     if k == "addref":
-        n = r.choice([x for x in fns if x.get("where") != "init" and not x.get("cls")])
+        n = r.choice([x for x in fns if x.get("where") != "init" and not x.get("cls") and not x.get("factory")])
         names = [x["name"] for x in fns if not x.get("cls") and x.get("where") != "init"]
         cands = [x for x in names if names.index(x) > names.index(n["name"]) and x not in [q["to"] for q in n["refs"]]]
         if cands:
@@ -262,7 +313,7 @@ def random_edit(r, prog, kinds=None):
             n["explicit"] = "e%d" % (int((n["explicit"] or "e0")[1:]) + 1)
             n["slots"]["body"] += 1           # an explicit-version bump accompanies a change of behaviour
             return {"edit": "explicit", "name": n["name"]}
-    n = r.choice(fns)
+    n = r.choice([x for x in fns if not x.get("factory")])
     n["slots"]["body"] += 1
     return {"edit": "slot", "name": n["name"], "slot": "body"}
 
